@@ -1,5 +1,6 @@
 import HcipyVerif.Lemmas.ZernikeRadialGen
 import HcipyVerif.Lemmas.ZernikeIntegral
+import HcipyVerif.Lemmas.ZernikeTrig
 import Mathlib.Topology.Instances.Rat
 
 /-! Helper lemma for C13: for **every** radial order the polynomial produced by the q-recursion is, as a real
@@ -22,5 +23,50 @@ theorem pevalR_radialPoly_eq_radialR (n m : Nat) (hm : m ≤ n) (hpar : (n - m) 
     push_cast
     rfl
   rw [h]
+
+theorem pevalR_pspread (p : Poly) (x : ℝ) : pevalR (pspread p) x = pevalR p (x * x) := by
+  induction p with
+  | nil => rfl
+  | cons a p ih =>
+    cases p with
+    | nil => simp [pspread]
+    | cons b p =>
+      have : pspread (a :: b :: p) = a :: 0 :: pspread (b :: p) := rfl
+      rw [this, pevalR_cons, pevalR_cons, ih, pevalR_cons, pevalR_cons, pevalR_cons]; push_cast; ring
+
+theorem cisPow_scale_real (ρ c s : ℝ) : ∀ k, cisPow (ρ * c) (ρ * s) k = (ρ ^ k * (cisPow c s k).1, ρ ^ k * (cisPow c s k).2)
+  | 0 => by simp [cisPow]
+  | k + 1 => by
+    have ih := cisPow_scale_real ρ c s k
+    simp only [cisPow, ih, Prod.mk.injEq]
+    constructor <;> ring
+
+/-- the Cartesian device `modeQXY` at a rational point `(x, y) = (r cos θ, r sin θ)` (`r`, `θ` real, in general irrational) is
+the polar formula: recursion polynomial at `2r/D` times the azimuthal factor at `θ` -/
+theorem modeQXY_real (n : Nat) (m : Int) (D x y : Rat) (r θ : ℝ)
+    (hx : (x : ℝ) = r * Real.cos θ) (hy : (y : ℝ) = r * Real.sin θ) :
+    ((modeQXY n m D x y : Rat) : ℝ) =
+      pevalR (radialPoly n m.natAbs) (2 * r / (D : ℝ)) * azimQ m (Real.cos θ) (Real.sin θ) := by
+  set ρ : ℝ := 2 * r / (D : ℝ) with hρ
+  have hX : ((2 * x / D : Rat) : ℝ) = ρ * Real.cos θ := by push_cast; rw [hx, hρ]; ring
+  have hY : ((2 * y / D : Rat) : ℝ) = ρ * Real.sin θ := by push_cast; rw [hy, hρ]; ring
+  have ht : ((2 * x / D * (2 * x / D) + 2 * y / D * (2 * y / D) : Rat) : ℝ) = ρ * ρ := by
+    rw [Rat.cast_add, Rat.cast_mul, Rat.cast_mul, hX, hY]
+    have := Real.cos_sq_add_sin_sq θ
+    nlinarith
+  unfold modeQXY radialPoly
+  simp only
+  rw [pevalR_pshift, pevalR_pspread, ← ht, pevalR_cast, peval_reducedPoly, Rat.cast_mul]
+  have hc := cisPow_cast (2 * x / D) (2 * y / D) m.natAbs
+  rw [hX, hY, cisPow_scale_real] at hc
+  simp only at hc
+  unfold azimQ
+  by_cases h0 : m = 0
+  · subst h0; simp
+  · by_cases hp : 0 < m
+    · simp only [h0, hp, if_false, if_true]
+      rw [hc.1]; ring
+    · simp only [h0, hp, if_false]
+      rw [hc.2]; ring
 
 end HcipyVerif.Zernike
